@@ -525,6 +525,7 @@ p_uthread_sleep (puint32 msec)
 	return TimeDelay (0, msec / 1000, (msec % 1000) * 1000) == 0 ? 0 : -1;
 #elif defined (PLIBSYS_HAS_CLOCKNANOSLEEP) || defined (PLIBSYS_HAS_NANOSLEEP)
 	pint result;
+	pint err_code;
 	struct timespec time_req;
 	struct timespec time_rem;
 
@@ -541,10 +542,13 @@ p_uthread_sleep (puint32 msec)
 							   0,
 							   &time_req,
 							   &time_rem)) != 0)) {
+			/* clock_nanosleep() returns an error number, errno is not set */
+			err_code = result;
 #  else
 		if (P_UNLIKELY ((result = nanosleep (&time_req, &time_rem)) != 0)) {
+			err_code = p_error_get_last_system ();
 #  endif
-			if (p_error_get_last_system () == EINTR)
+			if (err_code == EINTR)
 				time_req = time_rem;
 			else
 				return -1;
